@@ -39,3 +39,8 @@ def run(tier, seed):
         run_container("C08", kind, tier, seed, res=res, finish=False, do_explore=False,
                       own_clauses=DEG, foreign=(), scale=0.2 if tier == "quick" else 0.5)
     return res.finish()
+
+
+def replay(path):
+    from checks.containers import replay_container
+    return replay_container("C08", path)
